@@ -703,11 +703,11 @@ pub fn run(ctx: &mut Ctx) {
 	ctx.rule = "trees are obtained by duke::read_class from (a) class models of C01's generator under generated encodings, (c) the same after a renaming by dukebox::remap with a generated remapper, and (b) geometry classes: a filler method first-uses >=256 constants so that `ldc`s of the second method grow to `ldc_w` when re-written, stretching jumps laid out at 32767+-8 / -32768+-8 (if*/goto/jsr, forward/backward, nested so that widening one jump pushes another over, switches behind the stretched region, locals around 255/256/65535, total size around 65535). Oracle: duke::write_class output passes the harness's strict JVMS decoder (indices, tags, exact lengths, code limits, boundaries, padding) and decodes to the projection of the tree, where an expected `if<c> T` may appear as `if<!c> +2; goto_w T` and every index-bearing table entry is compared through the alignment; an Err is accepted only if some method cannot fit 65535 bytes in its worst-case encoding. Non-trivial = (a) method with branch and pool reference, (b) output contains a widened jump or a grown ldc; distinct by case hash".into();
 	ctx.assume("trees come from reading valid class files (a Label cannot be constructed outside duke)");
 	ctx.assume("no particular encoding, constant pool order or attribute order is required of the output");
-	ctx.run_sub("write_read_trees", ctx.tier.pick(6000, 120_000), || (class_stream(), choices()).prop_map(|(stream, ch)| SmallCase { stream, ch }), small);
-	ctx.run_sub("branch_geometry", ctx.tier.pick(400, 8000), geo_strategy, geometry);
+	ctx.run_sub("write_read_trees", ctx.tier.pick(24000, 1200000), || (class_stream(), choices()).prop_map(|(stream, ch)| SmallCase { stream, ch }), small);
+	ctx.run_sub("branch_geometry", ctx.tier.pick(800, 40000), geo_strategy, geometry);
 	ctx.run_sub(
 		"write_remapped_trees",
-		ctx.tier.pick(1500, 30_000),
+		ctx.tier.pick(3000, 150000),
 		|| (proptest::collection::vec(class_stream(), 1..=3), choices(), proptest::collection::vec(any::<u8>(), 0..120), 0u8..2).prop_map(|(streams, ch, map_stream, input_form)| crate::props::c07::Case { streams, ch, map_stream, input_form }),
 		remapped,
 	);
